@@ -20,10 +20,22 @@ def ref_archs_dv(desc):
     """... extended with all index combinations of the discrete design-variable nodes that exist."""
     out = set()
     for nodes, cc in ref_archs(desc):
-        dvs = [d for d in desc.dvs if d.name in nodes and d.options]
+        dvs = [d for d in desc.dvs if d.name in nodes and d.options and d.name in identity_dvs(desc, nodes)]
         for combo in itertools.product(*[range(len(d.options)) for d in dvs]):
             out.add((nodes, cc, tuple((d.name, i) for d, i in zip(dvs, combo))))
     return out
+
+
+def identity_dvs(desc, nodes):
+    """Discrete DV nodes whose index is part of the architecture identity: of each LINKED set only the first node
+    that is present (the others carry the same index by C13/C16)."""
+    names = [d.name for d in desc.dvs if d.name in nodes]
+    drop = set()
+    for t, cs in desc.constraints:
+        if t == 'LINKED':
+            present = [c for c in cs if c in names]
+            drop.update(present[1:])
+    return [n for n in names if n not in drop]
 
 
 def obs_arch(b, inst, with_dv=False):
@@ -39,8 +51,9 @@ def obs_arch(b, inst, with_dv=False):
         return nodes, cc
     vals = inst.des_var_values
     dv = []
+    keep = identity_dvs(b.desc, nodes)
     for d in b.desc.dvs:
-        if d.options and d.name in nodes:
+        if d.options and d.name in nodes and d.name in keep:
             v = vals.get(b.node[d.name])
             dv.append((d.name, v if v is None else int(v)))
     return nodes, cc, tuple(dv)
@@ -192,4 +205,60 @@ def decode_member(desc, tier, seed, props=('C01', 'C03', 'C07', 'C16'), encoders
                       f'fast encoder reaches {len(got)} architectures, reference has {len(ref)}; missing '
                       f'{[sorted(m[0]) for m in list(ref - got)[:2]]} extra {[sorted(m[0]) for m in list(got - ref)[:2]]}',
                       (desc.label, 'onto'))
+    if 'C16' in props and desc.dvs:
+        set_value_contract(desc, ctx)
     return ctx.result()
+
+
+def set_value_contract(desc, ctx):
+    """C16: setting a value directly on a graph clamps into the declared domain; linked nodes carry the same option
+    index / the same relative position, each inside its own domain."""
+    b = gen.Built(desc)
+    g0 = b.dsg
+    linked = [set(cs) for t, cs in desc.constraints if t == 'LINKED' and all(c in b.node for c in cs)]
+    for d in desc.dvs:
+        n = b.node[d.name]
+        if n not in g0.graph.nodes:
+            continue
+        if d.options:
+            vals = [-3, -1, 0, 1, len(d.options) - 1, len(d.options), len(d.options) + 5, 0.5, 1.5]
+        else:
+            lo, hi = d.bounds
+            vals = [lo - 10, lo, lo + (hi - lo) / 3, hi, hi + 10]
+        for v in vals:
+            g = g0.copy()
+            wit = ['graph-api', 'set_des_var_value', d.name, v]
+            nt = (desc.label, 'set', d.name, v)
+            try:
+                g.set_des_var_value(n, v)
+            except Exception as e:  # noqa
+                ctx.check('C16.set-value-total', False, wit, f'{type(e).__name__}: {e}', nt)
+                continue
+            got = g.des_var_value(n)
+            if d.options:
+                ok = got is not None and float(got) == int(got) and 0 <= got <= len(d.options) - 1
+                exp = min(max(int(v), 0), len(d.options) - 1)
+                ctx.check('C16.set-value-in-domain', ok, wit, f'stored {got}', nt)
+                ctx.check('C16.set-value-clamps', ok and int(got) == exp, wit, f'stored {got}, clamp gives {exp}', nt)
+            else:
+                lo, hi = d.bounds
+                ctx.check('C16.set-value-in-domain', got is not None and lo <= got <= hi, wit, f'stored {got}', nt)
+                ctx.check('C16.set-value-clamps', got == min(max(v, lo), hi), wit, f'stored {got}', nt)
+            for grp in linked:
+                if d.name not in grp:
+                    continue
+                for other in grp - {d.name}:
+                    od = [x for x in desc.dvs if x.name == other][0]
+                    ov = g.des_var_value(b.node[other])
+                    if od.options:
+                        ctx.check('C13.linked-dv-same-index', ov == got or len(od.options) != len(d.options), wit + [other],
+                                  f'{d.name}={got} but linked {other}={ov}', nt + (other,))
+                        ctx.check('C16.linked-value-in-own-domain', ov is not None and 0 <= ov <= len(od.options) - 1,
+                                  wit + [other], f'linked node {other} ({len(od.options)} options) got index {ov}', nt + (other,))
+                    else:
+                        lo, hi = d.bounds
+                        olo, ohi = od.bounds
+                        frac = (got - lo) / (hi - lo)
+                        ctx.check('C13.linked-dv-same-relative-position', ov is not None and abs((ov - olo) / (ohi - olo) - frac) < 1e-9,
+                                  wit + [other], f'{d.name} at fraction {frac}, linked {other}={ov} in [{olo},{ohi}]', nt + (other,))
+                        ctx.check('C16.linked-value-in-own-domain', ov is not None and olo <= ov <= ohi, wit + [other], f'{other}={ov}', nt + (other,))
